@@ -310,3 +310,145 @@ theorem unwrap_effect {h h' : Heap} {x p : Nat} {pre post : List Nat} (hg : Good
       simp [this]
 
 end BS.Heap
+
+namespace BS.Heap
+
+/-- after `y.extract()`, `_insert(i, y)` into `p` (not inside `y`) puts `y` at index `i` (clamped) of `p`'s children -/
+theorem insert_detached_at {h h' : Heap} {p i y : Nat} (hg : Good2 h) (hp : (h.kind p).isTag = true)
+    (hy : h.kind y ≠ .soup) (hroot : h.parent y = none) (hi : i ≤ (h.kids p).length)
+    (hc : insertCore h p i y = .ok h') :
+    Good2 h' ∧ h'.kids p = (h.kids p).insertIdx i y ∧ (∀ n, n ≠ p → h'.kids n = h.kids n) ∧
+    (∀ n, h'.parent n = if n = y then some p else h.parent n) := by
+  obtain ⟨hgood, hstr⟩ := hg
+  obtain ⟨w, hwf⟩ := hgood
+  have hnot : ∀ n, y ∉ h.kids n := by
+    intro n hm; have := hwf.kid_parent n y hm; rw [hroot] at this; cases this
+  obtain ⟨hg', _⟩ := insertCore_good2 extract_spec linkChild_spec ⟨⟨w, hwf⟩, hstr⟩ hp hy hc
+  obtain ⟨hsp, hso, hpa⟩ := insertCore_shape extract_spec linkChild_spec ⟨w, hwf⟩ hp hy hc
+  refine ⟨hg', ?_, ?_, hpa⟩
+  · rw [hsp, List.erase_of_not_mem (hnot p)]
+    have : slotOf (h.kids p) i y = i := by
+      unfold slotOf
+      rw [List.erase_of_not_mem (fun hm => hnot p (List.mem_of_mem_take hm))]
+      simp [List.length_take]; omega
+    rw [this]
+  · intro n hn; rw [hso n hn, List.erase_of_not_mem (hnot n)]
+
+/-- **insert_before(y)** (one element): `y` is removed from wherever it was and ends up immediately before `x`;
+    the other children of `x`'s parent keep their order; no other children list changes except for losing `y` -/
+theorem insertBefore_one_effect {h h' : Heap} {x y p : Nat} {pre post : List Nat} (hg : Good2 h)
+    (hp : h.parent x = some p) (hy : h.kind y ≠ .soup) (hxy : y ≠ x) (hxs : h.kind x ≠ .soup)
+    (hk : (h.kids p).erase y = pre ++ x :: post)
+    (hr : insertBefore h x [.node y] = .ok h') :
+    Good2 h' ∧ h'.kids p = pre ++ y :: x :: post ∧ (∀ n, n ≠ p → h'.kids n = (h.kids n).erase y) ∧
+    h'.parent y = some p := by
+  obtain ⟨hgood, hstr⟩ := hg
+  obtain ⟨w, hwf⟩ := hgood
+  have hptag := wf_parent_isTag hwf hp
+  unfold insertBefore at hr
+  simp only [hxs, if_false, hp] at hr
+  have hself : ([Arg.node y].any (isSelf x)) = false := by simp [isSelf, hxy]
+  simp only [hself, Bool.false_eq_true, if_false, insertBeforeLoop, extractArg] at hr
+  cases he : extract h y with
+  | error e => simp only [he] at hr; cases hr
+  | ok h1 =>
+    simp only [he] at hr
+    obtain ⟨hg1, hk1, hp1, hkind1, hnext1⟩ := extract_good extract_spec ⟨w, hwf⟩ he
+    have hg1' : Good2 h1 := ⟨hg1, fun n hn => by rw [hkind1]; exact hstr n (by omega)⟩
+    have hke : ∀ n, h1.kids n = (h.kids n).erase y := fun n => by rw [hk1 n]; exact kidsWithout_eq_erase hwf y n
+    have hnd1 := good_kids_nodup hg1 p
+    rw [hke p, hk] at hnd1
+    have hxpre : x ∉ pre := by
+      intro hm
+      have := List.nodup_append.mp hnd1
+      exact this.2.2 x hm x (by simp) rfl
+    have hidx : indexOf h1 p x = some pre.length := by
+      unfold indexOf; rw [hke p, hk]; exact idxOf?_append_cons_of_not_mem pre post x hxpre
+    simp only [hidx] at hr
+    cases hins : insert h1 p pre.length [.node y] with
+    | error e => simp only [hins] at hr; cases hr
+    | ok r =>
+      obtain ⟨h2, ins⟩ := r
+      simp only [hins] at hr; cases hr
+      have hy1 : h1.kind y ≠ .soup := by rw [hkind1]; exact hy
+      have hcore := insert_single_node hy1 hins
+      have := insert_detached_at hg1' (by rw [hkind1]; exact hptag) hy1 (by rw [hp1 y]; simp)
+        (by rw [hke p, hk]; simp) hcore
+      obtain ⟨hg', hkp, hko, hpa⟩ := this
+      refine ⟨hg', ?_, ?_, by rw [hpa y]; simp⟩
+      · rw [hkp, hke p, hk, insertIdx_append_length]
+      · intro n hn; rw [hko n hn, hke n]
+
+/-- **insert_after(y)** (one element): `y` ends up immediately after `x` -/
+theorem insertAfter_one_effect {h h' : Heap} {x y p : Nat} {pre post : List Nat} (hg : Good2 h)
+    (hp : h.parent x = some p) (hy : h.kind y ≠ .soup) (hxy : y ≠ x) (hxs : h.kind x ≠ .soup)
+    (hk : (h.kids p).erase y = pre ++ x :: post)
+    (hr : insertAfter h x [.node y] = .ok h') :
+    Good2 h' ∧ h'.kids p = pre ++ x :: y :: post ∧ (∀ n, n ≠ p → h'.kids n = (h.kids n).erase y) ∧
+    h'.parent y = some p := by
+  obtain ⟨hgood, hstr⟩ := hg
+  obtain ⟨w, hwf⟩ := hgood
+  have hptag := wf_parent_isTag hwf hp
+  unfold insertAfter at hr
+  simp only [hxs, if_false, hp] at hr
+  have hself : ([Arg.node y].any (isSelf x)) = false := by simp [isSelf, hxy]
+  simp only [hself, Bool.false_eq_true, if_false, insertAfterLoop, extractArg] at hr
+  cases he : extract h y with
+  | error e => simp only [he] at hr; cases hr
+  | ok h1 =>
+    simp only [he] at hr
+    obtain ⟨hg1, hk1, hp1, hkind1, hnext1⟩ := extract_good extract_spec ⟨w, hwf⟩ he
+    have hg1' : Good2 h1 := ⟨hg1, fun n hn => by rw [hkind1]; exact hstr n (by omega)⟩
+    have hke : ∀ n, h1.kids n = (h.kids n).erase y := fun n => by rw [hk1 n]; exact kidsWithout_eq_erase hwf y n
+    have hnd1 := good_kids_nodup hg1 p
+    rw [hke p, hk] at hnd1
+    have hxpre : x ∉ pre := by
+      intro hm
+      have := List.nodup_append.mp hnd1
+      exact this.2.2 x hm x (by simp) rfl
+    have hidx : indexOf h1 p x = some pre.length := by
+      unfold indexOf; rw [hke p, hk]; exact idxOf?_append_cons_of_not_mem pre post x hxpre
+    simp only [hidx] at hr
+    cases hins : insert h1 p (pre.length + 1) [.node y] with
+    | error e => simp only [hins] at hr; cases hr
+    | ok r =>
+      obtain ⟨h2, ins⟩ := r
+      simp only [hins] at hr; cases hr
+      have hy1 : h1.kind y ≠ .soup := by rw [hkind1]; exact hy
+      have hcore := insert_single_node hy1 hins
+      have := insert_detached_at hg1' (by rw [hkind1]; exact hptag) hy1 (by rw [hp1 y]; simp)
+        (by rw [hke p, hk]; simp) hcore
+      obtain ⟨hg', hkp, hko, hpa⟩ := this
+      refine ⟨hg', ?_, ?_, by rw [hpa y]; simp⟩
+      · rw [hkp, hke p, hk]
+        have : pre ++ x :: post = (pre ++ [x]) ++ post := by simp
+        rw [this]
+        have hl : (pre ++ [x]).length = pre.length + 1 := by simp
+        rw [← hl, insertIdx_append_length]; simp
+      · intro n hn; rw [hko n hn, hke n]
+
+/-- **append(y)** (one element): `y` is removed from wherever it was and becomes the last child -/
+theorem append_one_effect {h h' : Heap} {p y : Nat} (hg : Good2 h) (hp : (h.kind p).isTag = true)
+    (hy : h.kind y ≠ .soup) (ha : append h p (.node y) = .ok h') :
+    Good2 h' ∧ h'.kids p = (h.kids p).erase y ++ [y] ∧ (∀ n, n ≠ p → h'.kids n = (h.kids n).erase y) ∧
+    h'.parent y = some p := by
+  obtain ⟨hgood, hstr⟩ := hg
+  unfold append at ha
+  cases hins : insert h p (h.kids p).length [.node y] with
+  | error e => simp only [hins] at ha; cases ha
+  | ok r =>
+    obtain ⟨h1, ins⟩ := r
+    simp only [hins] at ha
+    split at ha
+    · cases ha
+    · cases ha
+      have hcore := insert_single_node hy hins
+      obtain ⟨hg', _⟩ := insertCore_good2 extract_spec linkChild_spec ⟨hgood, hstr⟩ hp hy hcore
+      obtain ⟨hsp, hso, hpa⟩ := insertCore_shape extract_spec linkChild_spec hgood hp hy hcore
+      refine ⟨hg', ?_, hso, by rw [hpa y]; simp⟩
+      rw [hsp]
+      have : slotOf (h.kids p) (h.kids p).length y = ((h.kids p).erase y).length := by
+        unfold slotOf; rw [List.take_length]
+      rw [this, List.insertIdx_length_self]
+
+end BS.Heap
